@@ -86,11 +86,12 @@ __CPROVER_ensures(key == g_mt_key
     : (g_mt_present == __CPROVER_old(g_mt_present) && g_mt_val == __CPROVER_old(g_mt_val) && g_mt_size == __CPROVER_old(g_mt_size)))
 ;
 
+/* (the dump also asks its local table of per-stack totals: any answer) */
 size_t aws_hash_table_get_entry_count(const struct aws_hash_table *map)
-__CPROVER_requires(map == g_mt_allocs)
+__CPROVER_requires(map == g_mt_allocs || (g_mt_stack_info != NULL && map == g_mt_stack_info))
 __CPROVER_requires(g_mt_locked)
 __CPROVER_assigns()
-__CPROVER_ensures(__CPROVER_return_value == g_mt_count)
+__CPROVER_ensures(map == g_mt_allocs ==> __CPROVER_return_value == g_mt_count)
 ;
 
 /* ------------------------------------------------------------------ client contract of the hash table: stacks */
@@ -186,10 +187,8 @@ __CPROVER_ensures(g_mt_stack_on && tracer->level == AWS_MEMTRACE_STACKS ==>
                               ((struct stack_trace *)g_mt_stack_elem->value)->depth <= tracer->frames_per_stack))))
 __CPROVER_ensures(g_mt_stack_on && tracer->level == AWS_MEMTRACE_STACKS && ptr == g_mt_key ==>
     MT_INFO(g_mt_val)->stack == (uint64_t)(uintptr_t)g_mt_stack_elem->key)
-/* level BYTES: no stack (the dump tests alloc->stack != 0): every byte of the field is zero (witness g_j) */
-__CPROVER_ensures(g_mt_stack_on && tracer->level == AWS_MEMTRACE_BYTES && ptr == g_mt_key &&
-                  g_j >= offsetof(struct alloc_info, stack) && g_j < offsetof(struct alloc_info, stack) + sizeof(uint64_t) ==>
-    ((const uint8_t *)g_mt_val)[g_j] == 0)
+/* level BYTES: no stack id (the dump tests alloc->stack != 0) */
+__CPROVER_ensures(g_mt_stack_on && tracer->level == AWS_MEMTRACE_BYTES && ptr == g_mt_key ==> MT_INFO(g_mt_val)->stack == 0)
 __CPROVER_ensures(MT_TRACED(tracer) ==> MT_ALLOCATED(tracer) == __CPROVER_old(MT_ALLOCATED(tracer)) + size)
 __CPROVER_ensures(MT_TRACED(tracer) ==> g_mt_sum == __CPROVER_old(g_mt_sum) + size && g_mt_count == __CPROVER_old(g_mt_count) + 1)
 __CPROVER_ensures(MT_TRACED(tracer) && ptr == g_mt_key ==>
@@ -360,6 +359,162 @@ __CPROVER_assigns(MT_TRACED(MT_TR(trace_allocator)) : g_mt_locked, g_mt_lock_cal
 __CPROVER_ensures(RET == (MT_TRACED(MT_TR(trace_allocator)) ? g_mt_count : 0))
 __CPROVER_ensures(!g_mt_locked)
 __CPROVER_ensures(MT_TRACED(MT_TR(trace_allocator)) ==> g_mt_lock_calls == __CPROVER_old(g_mt_lock_calls) + 1)
+;
+
+/* ------------------------------------------------------------------ dump
+ * Everything the dump calls is replaced by a contract; what is proved about the real body is its FRAME (tracer->allocated
+ * and the view of tracer->allocs are not assignable: "producing a dump never changes the accounting"), the lock
+ * discipline, and the obligations at the call sites below.  The log sink is modelled as absent (aws_logger_get() == NULL):
+ * the formatted output itself is not part of the property. */
+struct aws_logger *aws_logger_get(void)
+__CPROVER_requires(1)
+__CPROVER_assigns()
+__CPROVER_ensures(__CPROVER_return_value == NULL)
+;
+
+int mt_dump_table_init(
+    struct aws_hash_table *map,
+    struct aws_allocator *alloc,
+    size_t size,
+    aws_hash_fn *hash_fn,
+    aws_hash_callback_eq_fn *equals_fn,
+    aws_hash_callback_destroy_fn *destroy_key_fn,
+    aws_hash_callback_destroy_fn *destroy_value_fn)
+__CPROVER_requires(g_mt_locked)
+__CPROVER_requires(__CPROVER_w_ok(map, sizeof(*map)) && map != g_mt_allocs && map != g_mt_stacks)
+__CPROVER_requires(alloc == &g_mt_default_allocator)
+__CPROVER_requires(hash_fn == aws_hash_ptr && equals_fn == aws_ptr_eq && destroy_key_fn == NULL && destroy_value_fn == s_stack_info_destroy)
+__CPROVER_assigns(*map, g_mt_stack_info)
+__CPROVER_ensures(__CPROVER_return_value == AWS_OP_SUCCESS && g_mt_stack_info == map)
+;
+
+/* iteration.  Call-site obligation: over tracer->allocs only the two callbacks that the units cb_collect_stack_stats /
+ * cb_insert_allocs prove to be read-only on the element and to return CONTINUE (never DELETE); the hash table's
+ * contract for such a callback is that the table is unchanged (assumed, C02). */
+int mt_dump_foreach(
+    struct aws_hash_table *map,
+    int (*callback)(void *context, struct aws_hash_element *p_element),
+    void *context)
+__CPROVER_requires(g_mt_locked)
+__CPROVER_requires((map == g_mt_allocs && callback == s_collect_stack_stats && g_mt_stack_info != NULL && context == g_mt_stack_info) ||
+                   (map == g_mt_allocs && callback == s_insert_allocs && g_mt_pq != NULL && context == g_mt_pq) ||
+                   (g_mt_stack_info != NULL && map == g_mt_stack_info && callback == s_collect_stack_trace && context == g_mt_tracer) ||
+                   (g_mt_stack_info != NULL && map == g_mt_stack_info && callback == s_insert_stacks && g_mt_pq != NULL && context == g_mt_pq))
+__CPROVER_assigns(g_mt_pq_size, g_mt_foreach_calls)
+__CPROVER_ensures(__CPROVER_return_value == AWS_OP_SUCCESS)
+__CPROVER_ensures(g_mt_foreach_calls == __CPROVER_old(g_mt_foreach_calls) + 1)
+;
+
+/* lookup in the local per-stack table: an entry exists for every stack id found in a live info (inserted by
+ * s_collect_stack_stats just before) */
+int mt_dump_find(const struct aws_hash_table *map, const void *key, struct aws_hash_element **p_elem)
+__CPROVER_requires(g_mt_locked && g_mt_dump_stacks)
+__CPROVER_requires(g_mt_stack_info != NULL && map == g_mt_stack_info)
+__CPROVER_requires(__CPROVER_w_ok(p_elem, sizeof(*p_elem)))
+__CPROVER_assigns(*p_elem)
+__CPROVER_ensures(__CPROVER_return_value == AWS_OP_SUCCESS)
+__CPROVER_ensures(__CPROVER_is_fresh(*p_elem, sizeof(struct aws_hash_element)) &&
+                  __CPROVER_is_fresh((*p_elem)->value, sizeof(struct stack_metadata)))
+;
+void mt_dump_table_clean_up(struct aws_hash_table *map)
+__CPROVER_requires(g_mt_locked)
+__CPROVER_requires(g_mt_stack_info != NULL && map == g_mt_stack_info)
+__CPROVER_assigns(*map, g_mt_stack_info)
+__CPROVER_ensures(g_mt_stack_info == NULL)
+;
+
+/* priority queues of pointers (one in use at a time) */
+int aws_priority_queue_init_dynamic(
+    struct aws_priority_queue *queue,
+    struct aws_allocator *alloc,
+    size_t default_size,
+    size_t item_size,
+    aws_priority_queue_compare_fn *pred)
+__CPROVER_requires(g_mt_locked && g_mt_pq == NULL)
+__CPROVER_requires(__CPROVER_w_ok(queue, sizeof(*queue)))
+__CPROVER_requires(alloc == &g_mt_default_allocator && item_size == sizeof(void *))
+__CPROVER_requires(pred == s_alloc_compare || pred == s_stack_info_compare_size || pred == s_stack_info_compare_count)
+__CPROVER_assigns(*queue, g_mt_pq, g_mt_pq_size)
+__CPROVER_ensures(__CPROVER_return_value == AWS_OP_SUCCESS && g_mt_pq == queue && g_mt_pq_size == 0)
+;
+size_t aws_priority_queue_size(const struct aws_priority_queue *queue)
+__CPROVER_requires(g_mt_pq != NULL && queue == g_mt_pq)
+__CPROVER_assigns()
+__CPROVER_ensures(__CPROVER_return_value == g_mt_pq_size)
+;
+/* hands out a pointer to a live record (struct alloc_info and struct stack_metadata have the same size); an info of a
+ * tracer that does not record stacks has stack id 0 (track, level BYTES) */
+int aws_priority_queue_pop(struct aws_priority_queue *queue, void *item)
+__CPROVER_requires(g_mt_pq != NULL && queue == g_mt_pq && g_mt_pq_size > 0)
+__CPROVER_requires(__CPROVER_w_ok(item, sizeof(void *)))
+__CPROVER_assigns(g_mt_pq_size, __CPROVER_object_upto(item, sizeof(void *)))
+__CPROVER_ensures(__CPROVER_return_value == AWS_OP_SUCCESS && g_mt_pq_size == __CPROVER_old(g_mt_pq_size) - 1)
+__CPROVER_ensures(__CPROVER_is_fresh(*(void **)item, sizeof(struct alloc_info)))
+__CPROVER_ensures(!g_mt_dump_stacks ==> MT_INFO(*(void **)item)->stack == 0)
+;
+void aws_priority_queue_clean_up(struct aws_priority_queue *queue)
+__CPROVER_requires(g_mt_pq != NULL && queue == g_mt_pq)
+__CPROVER_assigns(*queue, g_mt_pq)
+__CPROVER_ensures(g_mt_pq == NULL)
+;
+int aws_priority_queue_push(struct aws_priority_queue *queue, void *item)
+__CPROVER_requires(g_mt_pq != NULL && queue == g_mt_pq)
+__CPROVER_requires(__CPROVER_r_ok(item, sizeof(void *)))
+__CPROVER_assigns(g_mt_pq_size)
+__CPROVER_ensures(__CPROVER_return_value == AWS_OP_SUCCESS && g_mt_pq_size == __CPROVER_old(g_mt_pq_size) + 1)
+;
+
+void aws_mem_tracer_dump(struct aws_allocator *trace_allocator)
+__CPROVER_requires(MT_ALLOCATOR_OK(trace_allocator))
+__CPROVER_requires(MT_INV(MT_TR(trace_allocator)))
+__CPROVER_requires(g_mt_tracer == trace_allocator->impl && g_mt_dump_stacks == (MT_TR(trace_allocator)->level == AWS_MEMTRACE_STACKS))
+__CPROVER_requires(g_mt_pq == NULL && g_mt_stack_info == NULL)
+/* the frame: the lock flag and the dump's own scratch state; NOT tracer->allocated, NOT the view of tracer->allocs */
+__CPROVER_assigns(g_mt_locked, g_mt_lock_calls, g_mt_pq, g_mt_pq_size, g_mt_stack_info, g_mt_foreach_calls)
+__CPROVER_ensures(!g_mt_locked && g_mt_pq == NULL && g_mt_stack_info == NULL)
+__CPROVER_ensures(g_mt_lock_calls <= __CPROVER_old(g_mt_lock_calls) + 1)
+__CPROVER_ensures((!MT_TRACED(MT_TR(trace_allocator)) || g_mt_sum == 0) ==> g_mt_lock_calls == __CPROVER_old(g_mt_lock_calls))
+;
+
+/* the two callbacks the dump runs over tracer->allocs: the element and the info it points to are read only (empty frame
+ * apart from the callee's own targets), iteration continues, nothing is deleted */
+static int s_insert_allocs(void *context, struct aws_hash_element *item)
+__CPROVER_requires(__CPROVER_is_fresh(item, sizeof(*item)) && __CPROVER_is_fresh(item->value, sizeof(struct alloc_info)))
+__CPROVER_requires(context != NULL && context == g_mt_pq)
+__CPROVER_assigns(g_mt_pq_size)
+__CPROVER_ensures(RET == AWS_COMMON_HASH_TABLE_ITER_CONTINUE)
+__CPROVER_ensures(g_mt_pq_size == __CPROVER_old(g_mt_pq_size) + 1)
+;
+static int s_insert_stacks(void *context, struct aws_hash_element *item)
+__CPROVER_requires(__CPROVER_is_fresh(item, sizeof(*item)) && __CPROVER_is_fresh(item->value, sizeof(struct stack_metadata)))
+__CPROVER_requires(context != NULL && context == g_mt_pq)
+__CPROVER_assigns(g_mt_pq_size)
+__CPROVER_ensures(RET == AWS_COMMON_HASH_TABLE_ITER_CONTINUE)
+__CPROVER_ensures(g_mt_pq_size == __CPROVER_old(g_mt_pq_size) + 1)
+;
+/* per-stack totals: count += 1, size += info->size in the record filed under the info's stack id */
+size_t g_mt_tot_count, g_mt_tot_size; /* totals of that record before the call (0, 0 for a new record) */
+int mt_dump_create(struct aws_hash_table *map, const void *key, struct aws_hash_element **p_elem, int *was_created)
+__CPROVER_requires(g_mt_stack_info != NULL && map == g_mt_stack_info)
+__CPROVER_requires(__CPROVER_w_ok(p_elem, sizeof(*p_elem)) && __CPROVER_w_ok(was_created, sizeof(*was_created)))
+__CPROVER_assigns(*p_elem, *was_created, g_mt_stack_elem, g_mt_tot_count, g_mt_tot_size)
+__CPROVER_ensures(__CPROVER_return_value == AWS_OP_SUCCESS)
+__CPROVER_ensures(__CPROVER_is_fresh(*p_elem, sizeof(struct aws_hash_element)) && (*p_elem)->key == key)
+__CPROVER_ensures(*was_created == 0 || *was_created == 1)
+__CPROVER_ensures(*was_created ? ((*p_elem)->value == NULL && g_mt_tot_count == 0 && g_mt_tot_size == 0)
+                               : (__CPROVER_is_fresh((*p_elem)->value, sizeof(struct stack_metadata)) &&
+                                  ((struct stack_metadata *)(*p_elem)->value)->count == g_mt_tot_count &&
+                                  ((struct stack_metadata *)(*p_elem)->value)->size == g_mt_tot_size))
+__CPROVER_ensures(__CPROVER_pointer_equals(g_mt_stack_elem, *p_elem))
+;
+static int s_collect_stack_stats(void *context, struct aws_hash_element *item)
+__CPROVER_requires(__CPROVER_is_fresh(item, sizeof(*item)) && __CPROVER_is_fresh(item->value, sizeof(struct alloc_info)))
+__CPROVER_requires(context != NULL && context == g_mt_stack_info)
+__CPROVER_assigns(g_mt_stack_elem, g_mt_tot_count, g_mt_tot_size)
+__CPROVER_ensures(RET == AWS_COMMON_HASH_TABLE_ITER_CONTINUE)
+__CPROVER_ensures(g_mt_stack_elem->key == (void *)(uintptr_t)MT_INFO(item->value)->stack)
+__CPROVER_ensures(((struct stack_metadata *)g_mt_stack_elem->value)->count == g_mt_tot_count + 1 &&
+                  ((struct stack_metadata *)g_mt_stack_elem->value)->size == g_mt_tot_size + MT_INFO(item->value)->size)
 ;
 
 /* ------------------------------------------------------------------ destroy: both tables emptied under the mutex, the
